@@ -242,7 +242,7 @@ ADDENDA = {
     "C08": "Port counts of A's old nodes; B with re-used indices inserted into A with several freed indices. Receiving builders that are basic blocks with dominator wires or nested regions with non-local wires; the parent given as a bare ToNode implementation.",
     "C09": "Every round trip is followed by failing decodes (cut in header / payload, flipped byte, other magic) after each of which the valid envelope must decode again; malformed text input; the default configuration's header judged against its payload; one configuration object re-used for level after level; the package changed after encoding and encoded again. to_str under a compressing configuration (refused, or a faithful envelope); two different extensions of one name in a package. Modules carry a node naming a shipped operation with its own description and signature.",
     "C10": "Every other generated extension is serialized after each single addition while it is being built. Extensions that require themselves; operations defined again under a name already held; loaded std extensions and the module-level objects against the source documents field by field; register_op. A loaded copy annotated in place leaves other operations and other loaded copies as they were. Operation signatures with a requirement named twice.",
-    "C11": "Every other type expression is resolved a second time against another registry (opaque types inside definition-backed types); the description licence is judged exactly (original or the definition's). Function types whose output row equals the input row without being spelled the same. Registry-defined operations with phantom type arguments (nothing to resolve in the signature).",
+    "C11": "Every other type expression is resolved a second time against another registry (opaque types inside definition-backed types); the description licence is judged exactly (original or the definition's). Function types whose output row equals the input row without being spelled the same. Registry-defined operations with phantom type arguments (nothing to resolve in the signature). Known gap: opaque types that do not fit the definition held by the registry are not generated (seeded change C11-32 is not caught).",
     "C12": "The kind of every exported node (containers keep their kind, custom operations are named after extension and operation, tags carry their tag); Package.to_model; the HUGR changed after export and exported again. Metadata records replaced as a whole before the second export. Bodies of function-valued constants changed (metadata, a node added) between two exports of the same module. Metadata keys in the model's own namespaces (core., compat.).",
     "C13": "Refused wires are offered through six entry points; five more kinds of incomplete operations incl. add_if without add_else; all three serialization routes. Also insert_nested / insert_cfg / insert_tail_loop as entry points (nine in all, chosen by a proper hash). Output rows that differ only in type arguments are also offered to polymorphic definitions, declared before or after. add_case asked again while the first builder is still open.",
     "C14": "Negative integers, more unit-sum sizes, sugar objects as declared sum types, bool_value, default width; one Const node whose value is exchanged after its type was asked for (const-replaced). Equal sub-values as one object. Integers at and just beyond the edges of every width (inhabit, or refused). A value obtained from a helper is edited in place before the helper is called again (helpers share nothing with what they handed out). bool_value of true / false things that are not the bool singletons.",
@@ -251,7 +251,7 @@ ADDENDA = {
     "C17": "Mutation operator retype: a value of another JSON type at any position (position classes visited least-mutated-first, replacement kinds in turn; scalar-for-scalar swaps judged under the strict configuration only). Position classes of retype follow the models; a zoo type with every kind of type argument; monitor default-agreement: for every published property default the key is removed from corpus documents and what the decoder fills in is compared with the published default. Extension documents with fixed lowerings. Strings padded with white space (refused by both formalisms where the schema constrains the string, taken as they are elsewhere). Retype also transplants a well-formed object of another model from elsewhere in the same document. Integers replaced by fractional numbers.",
     "C18": "Blind histories (nothing read between mutators, before the invariant walk is attached); the inherited mapping surface; histories starting from constructed maps; constructor from equal-not-identical objects, proxies, UserDict, keyword. Constructor arguments also defaultdict / OrderedDict.",
     "C19": "as_dict; constructor iterables and caller-side edits; defaults of register_counts; zero-shot results; a result changed and asked again; key shape of collated counts; collated shots without truncation; more tag shapes. Equal list values of a shot as one object. Float twins of a shot: a multi-shot call is refused exactly when some shot alone is refused. Tuples among the values that are not bits.",
-    "C20": "Every rendering is read by Graphviz itself (nop: graph syntax; dot on the node statements alone: HTML-like labels) and a sample is stored with store_dot / DotRenderer.store; cluster count; re-render after the HUGR changed; smallest shapes; HTML-special characters in names and metadata. Hugr.render_dot asked twice with a count-preserving change in between (metadata edited, two links' targets exchanged).",
+    "C20": "Every rendering is read by Graphviz itself (nop: graph syntax; dot on the node statements alone: HTML-like labels) and a sample is stored with store_dot / DotRenderer.store; cluster count; re-render after the HUGR changed; smallest shapes; HTML-special characters in names and metadata. Hugr.render_dot asked twice with a count-preserving change in between (metadata edited, two links' targets exchanged). Two user-written palettes (pairwise equal colours, a single colour).",
 }
 for _k, _v in ADDENDA.items():
     _t = CHECKS[_k]
